@@ -324,6 +324,7 @@ def sweepReg (c0 : Cpu) (which blk nblk : Nat) (fmask : UInt8) (link : Nat := 99
   let mut hz : UInt64 := 0xcbf29ce484222325
   let mut h5 : UInt64 := 0xcbf29ce484222325
   let mut alldoc := true
+  let mut alldocF := true
   for k in [0:per] do
     let v := UInt16.ofNat (blk * per + k)
     -- the memory array is threaded linearly: `bus` is emptied while the step owns the array
@@ -358,13 +359,16 @@ def sweepReg (c0 : Cpu) (which blk nblk : Nat) (fmask : UInt8) (link : Nat := 99
         | true, some n => UInt64.ofNat n
         | _, _ => cyc.toUInt64
     alldoc := alldoc && isdoc
+    alldocF := alldocF && (match info with
+      | none => true
+      | some i => !wk && Spec.documented i.page i.d.op && !Spec.io i.page i.d.op)
     hz := mix hz z
     h5 := mix (mix (mix (mix (mix (mix h5 (b2u a'.halt)) (b2u a'.iff1)) (b2u a'.iff2)) a'.im.toUInt64)
             (match a'.int with | none => 0x100 | some b => b.toUInt64)) (b2u a'.nmi)
     bus := a'.bus
   let ck := bus.mem.foldl (fun h b => mix h b.toUInt64) (0xcbf29ce484222325 : UInt64)
   return "H " ++ hexN 16 (mix h1 ck).toNat ++ " " ++ hexN 16 hf.toNat ++ " " ++ hexN 16 h3.toNat ++ " " ++
-    hexN 16 h4.toNat ++ " " ++ hexN 16 hz.toNat ++ " " ++ hexN 16 h5.toNat ++ " doc=" ++ (if alldoc then "1" else "0")
+    hexN 16 h4.toNat ++ " " ++ hexN 16 hz.toNat ++ " " ++ hexN 16 h5.toNat ++ " doc=" ++ (if alldoc then "1" else "0") ++ " fdoc=" ++ (if alldocF then "1" else "0")
 
 /-! ### request dispatcher -/
 
